@@ -3,7 +3,7 @@
    store that lists from a start key, with concurrent appends and a clock the harness moves, on
    every run. *)
 From Coq Require Import List NArith Bool Arith String.
-From DM Require Import Model.Wal Proofs.WalProofs.
+From DM Require Import Gen.Consts Model.Wal Proofs.WalProofs.
 Import ListNotations.
 Open Scope N_scope.
 
@@ -39,7 +39,7 @@ Print Assumptions C19_listing_sound.
 
 (* ... every one of them when they fit in the requested maximum (capped at 1000), ... *)
 Theorem C19_listing_complete : forall from max l e,
-  Nat.le (List.length (filter (fun e : N * string => list_start from <=? fst e) l)) (Nat.min max 1000) ->
+  Nat.le (List.length (filter (fun e : N * string => list_start from <=? fst e) l)) (Nat.min max walMaxEntriesPerList) ->
   In e l -> list_start from <= fst e -> In e (list_entries from max l).
 Proof. exact listing_complete. Qed.
 Print Assumptions C19_listing_complete.
